@@ -710,3 +710,55 @@ def sc_death_after_close(params, obs, save):
     obs['worst_stall'] = hb.stop()
     save()
     pool.terminate()
+
+
+def sc_terminate_during_supervision(params, obs, save):
+    """terminate() arrives while the supervisor is in the middle of a pass
+    that has just reaped a dead worker (window widened by a slow, legitimate
+    on_process_down hook): no replacement may be started after it"""
+    hb = Heartbeat()
+    before = set(threading.enumerate())
+    up = []
+    in_hook = threading.Event()
+
+    def slow_down_hook(w):
+        log('process_down', wpid=w.pid, exitcode=w.exitcode)
+        in_hook.set()
+        time.sleep(params.get('hook_sleep', 1.2))
+    pool = _mkpool(params, up, {'on_process_down': slow_down_hook})
+    seen = set()
+    t_end = time.monotonic() + 20
+    while len(seen) < params['nproc'] and time.monotonic() < t_end:
+        hs = [pool.apply_async(tasks.t_pid, ('warm', 0.1)) for _ in range(params['nproc'])]
+        for x in hs:
+            seen.add(x.get(20)[2])
+    time.sleep(0.4)
+
+    def wchan(pid):
+        try:
+            return open('/proc/%d/wchan' % pid).read()
+        except OSError:
+            return ''
+    waiters = [p for p in sorted(seen) if 'pipe' not in wchan(p)]
+    if not waiters:
+        obs['no_victim'] = True
+        pool.terminate()
+        return
+    victim = waiters[0]
+    obs['victim'] = victim
+    log('idle_kill', wpid=victim)
+    os.kill(victim, signal.SIGKILL)
+    obs['hook_entered'] = in_hook.wait(10)
+    time.sleep(params.get('offset', 0.1))
+    log('terminate_call')
+    t0 = time.monotonic()
+    pool.terminate()
+    obs['terminate_wall'] = time.monotonic() - t0
+    log('terminate_returned')
+    time.sleep(params.get('hook_sleep', 1.2) + 1.5)    # let the supervisor finish its pass
+    kids = dict(children_of(os.getpid()))
+    obs['workers_after'] = {str(pid): (kids.get(pid) or pid_exists(pid)) for pid in up
+                            if (kids.get(pid) or pid_exists(pid)) not in (None,)}
+    obs['ups'] = len(up)
+    obs['threads_after'] = _thread_names(_pool_threads(before))
+    obs['worst_stall'] = hb.stop()
